@@ -511,6 +511,17 @@ def run(ck):
     cpd = circ.methods['_check_persistent_data']
     rd_ts = [x for x in own_nodes(cpd.node) if isinstance(x, ast.Assign) and
              norm(x.targets[0]) == 'self.persistent_ts' and isinstance(x.value, ast.Subscript)]
+    if not rd_ts:
+        # through a local: self.persistent_ts = <name>, every definition of <name> a storage read
+        gcp0 = ck.cfg(cpd.fid, 'MK')
+        rdc = ck.rdefs(cpd.fid, 'MK')
+        for wn in nodes_writing_attr(gcp0, 'persistent_ts'):
+            v_ = written_value(wn, 'persistent_ts')
+            if isinstance(v_, ast.Name):
+                vals_ = rdc.value_exprs(wn, v_.id)
+                if vals_ and all(not isinstance(x, str) and isinstance(x, ast.Subscript) and
+                                 _is_storage(x.value) for x in vals_):
+                    rd_ts = [ast.Assign(targets=wn.ast.targets, value=vals_[0], lineno=wn.ast.lineno)]
     ok = len(rd_ts) == 1 and _is_storage(rd_ts[0].value.value)
     ck.ob(R6, f"{cpd.fid} :: time stamp read", ok,
           "persistent_ts is read from the storage" if ok else
